@@ -86,6 +86,21 @@ impl<N: Copy> OrderMap<N> {
         }
     }
 
+    /// Verification hook: both directions of the order map, as plain indices.
+    #[cfg(feature = "verif-hooks")]
+    pub(super) fn verif_raw(
+        &self,
+        to_index: impl Fn(N) -> usize,
+    ) -> (Vec<(usize, usize)>, Vec<usize>) {
+        (
+            self.pos_to_node
+                .iter()
+                .map(|(p, &n)| (p.0, to_index(n)))
+                .collect(),
+            self.node_to_pos.iter().map(|p| p.0).collect(),
+        )
+    }
+
     /// Map a node to its position in the topological order.
     ///
     /// Panics if the node index is out of bounds.
@@ -193,6 +208,17 @@ impl<N: Copy> OrderMap<N> {
 }
 
 impl<G: Visitable> super::Acyclic<G> {
+    /// Verification hook: `(position, node index)` pairs of the order, and
+    /// the position recorded for every node index slot.
+    #[cfg(feature = "verif-hooks")]
+    pub fn verif_order<'a>(&'a self) -> (Vec<(usize, usize)>, Vec<usize>)
+    where
+        &'a G: NodeIndexable + GraphBase<NodeId = G::NodeId>,
+    {
+        let g = &self.graph;
+        self.order_map.verif_raw(|n| g.to_index(n))
+    }
+
     /// Get the position of a node in the topological sort.
     ///
     /// Panics if the node index is out of bounds.
